@@ -45,7 +45,7 @@ FUNCTIONS = [
     "skchange.change_scores.from_cost:ChangeScore._fit",
 ]
 BOUNDS = {
-    "quick": "seven detectors, ten histories of up to three earlier calls (earlier predict / transform / transform_scores on "
+    "quick": "seven detectors, twelve histories of up to four earlier calls (earlier predict / transform / transform_scores on "
              "another dataset, earlier fits incl. another number of columns, repeated calls, a second detector sharing the "
              "scorer object, clone, set_params, update == fit on combined data); observed dataset symbolic n=4 (CBS 5, "
              "CAPA/MVCAPA 3), side datasets concrete n in {6,7}, p in {1,2}; eight scorers / adapters with fit-evaluate "
@@ -98,8 +98,11 @@ class TLocal(_Tagged, TableLocalScore):
     pass
 
 
-def build(det, scorers=None, scale=None, alt=False):
-    """alt=True: a differently configured instance (for the set_params history)."""
+def build(det, scorers=None, scale=None, alt=False, wrap=False):
+    """alt=True: a differently configured instance (for the set_params history).
+    wrap=True: the detector is given a (table) *cost*; it builds its own ChangeScore / Saving /
+    LocalAnomalyScore adapter around it, so two detectors sharing the cost object have distinct
+    adapters whose fitted state refers to the one shared cost."""
     from skchange.anomaly_detectors import CAPA, MVCAPA, CircularBinarySegmentation, StatThresholdAnomaliser
     from skchange.change_detectors import PELT, MovingWindow, SeededBinarySegmentation
     # the penalty / threshold scale is concrete here: with a symbolic scale the runs on the concrete side
@@ -108,6 +111,17 @@ def build(det, scorers=None, scale=None, alt=False):
     if alt:
         s = 7.0
     any_p = dict(any_p=True)
+    if wrap and det in ("MovingWindow", "SBS", "CBS"):
+        sc = scorers or [TCost(**any_p)]
+        if det == "MovingWindow":
+            return MovingWindow(sc[0], bandwidth=1, threshold_scale=s), sc
+        if det == "SBS":
+            return SeededBinarySegmentation(sc[0], threshold_scale=s, min_segment_length=1, growth_factor=2.0), sc
+        return CircularBinarySegmentation(sc[0], threshold_scale=s, min_segment_length=1, growth_factor=2.0), sc
+    if wrap and det in ("CAPA", "MVCAPA"):
+        sc = scorers or [TCost(param=0.0, **any_p), TCost(param=0.0, tag="q", **any_p)]
+        cls = CAPA if det == "CAPA" else MVCAPA
+        return cls(sc[0], sc[1], collective_penalty_scale=s, point_penalty_scale=s, min_segment_length=2), sc
     if det == "PELT":
         sc = scorers or [TCost(**any_p)]
         return PELT(sc[0], penalty_scale=s, min_segment_length=1 if not alt else 2), sc
@@ -190,10 +204,12 @@ HISTORIES = [
     ("shared_scorer_object", ["fit A", "OTHER fit B", "OTHER predict B", "OBS predict A"], "A"),
     ("shared_scorer_object_scores", ["OTHER fit B", "fit A", "OTHER transform B", "OBS transform_scores A"], "A"),
     ("refit_same_data", ["fit A", "predict A", "fit A", "OBS transform_scores A"], "A"),
+    ("shared_scorer_after_own_predict", ["fit A", "predict A", "OTHER fit B", "OTHER predict B", "OBS predict A"], "A"),
+    ("shared_scorer_interleaved_transform", ["fit A", "transform A", "OTHER fit B", "OTHER transform B", "OBS transform A"], "A"),
 ]
 
 
-def make_det(det, n, p, group="same_train"):
+def make_det(det, n, p, group="same_train", wrap=False):
     """group: histories whose observed call runs under the same fitted threshold are explored together (the decision
     memo makes them free); histories with another fitted threshold get their own exploration, otherwise the path
     counts would multiply."""
@@ -205,11 +221,11 @@ def make_det(det, n, p, group="same_train"):
     if det in ("CAPA", "MVCAPA"):
         from .c03 import table_assumptions
         base += table_assumptions(n, p, 2, n)
-    info = dict(part="detector", det=det, n=n, p=p, group=group)
+    info = dict(part="detector", det=det, n=n, p=p, group=group, wrap=wrap)
     rngB = np.random.default_rng(5)
     data = {"A": pd.DataFrame(A.copy()), "B": pd.DataFrame(rngB.integers(-4, 5, size=(6, p)).astype(float)),
             "B2": pd.DataFrame(rngB.integers(-4, 5, size=(7, 3 - p)).astype(float))}
-    if det == "StatThresholdAnomaliser":
+    if det == "StatThresholdAnomaliser" or wrap:
         data["B2"] = pd.DataFrame(rngB.integers(-4, 5, size=(7, 1)).astype(float))
 
     def call(d, scorers, op, X, pcols):
@@ -233,8 +249,8 @@ def make_det(det, n, p, group="same_train"):
                 continue
             inf = dict(info, history=hname, ops=ops)
             try:
-                d, scorers = build(det)
-                other, _ = build(det, scorers=scorers)       # a second detector sharing the scorer objects
+                d, scorers = build(det, wrap=wrap)
+                other, _ = build(det, scorers=scorers, wrap=wrap)       # a second detector sharing the scorer objects
                 params0 = {k: v for k, v in d.get_params(deep=False).items()}
                 obs = None
                 for step in ops:
@@ -249,7 +265,7 @@ def make_det(det, n, p, group="same_train"):
                         call(tgt, scorers, op, X, X.shape[1])
                 got_params = fitted_params(d)
                 # reference: a fresh object fitted on the same training data, then the observed call
-                r, rs = build(det)
+                r, rs = build(det, wrap=wrap)
                 _set_p(rs, data[train].shape[1])
                 r.fit(data[train])
                 _set_p(rs, data["A"].shape[1])
@@ -272,12 +288,12 @@ def make_det(det, n, p, group="same_train"):
         try:
             if group != "same_train":
                 raise StopIteration
-            r, rs = build(det)
+            r, rs = build(det, wrap=wrap)
             _set_p(rs, p)
             r.fit(data["A"])
             ref = observe(r, data["A"], "predict")
-            alt, _ = build(det, alt=True)
-            fresh, fs = build(det)
+            alt, _ = build(det, alt=True, wrap=wrap)
+            fresh, fs = build(det, wrap=wrap)
             alt.set_params(**fresh.get_params(deep=False))
             sc = _all_table_scorers(alt)
             _set_p(sc, p)
@@ -294,11 +310,11 @@ def make_det(det, n, p, group="same_train"):
                 raise StopIteration
             A1 = pd.DataFrame(rngB.integers(-4, 5, size=(5, p)).astype(float))
             Anew = pd.DataFrame(A.copy(), index=pd.RangeIndex(5, 5 + n))
-            u, us = build(det)
+            u, us = build(det, wrap=wrap)
             u.fit(A1)
             u.update(Anew)
             comb = pd.concat([A1.astype(object), Anew])
-            f, fsc = build(det)
+            f, fsc = build(det, wrap=wrap)
             f.fit(comb)
             acc.concrete("update.same_fitted_parameters_as_fit_on_combined_data", same_params(fitted_params(u), fitted_params(f)), dict(info, history="update"), eng=eng)
             Aobs = data["A"]
@@ -392,6 +408,8 @@ def jobs(tier):
     for (det, n, p) in grid:
         for group in ("same_train", "other_train", "update"):
             out.append(Job(M, "make_det", dict(det=det, n=n, p=p, group=group), split=True))
+    for (det, n) in ([("MovingWindow", 4), ("SBS", 3), ("CAPA", 3)] if tier == "quick" else [("MovingWindow", 5), ("SBS", 4), ("CBS", 4), ("CAPA", 3), ("MVCAPA", 2)]):
+        out.append(Job(M, "make_det", dict(det=det, n=n, p=1, group="same_train", wrap=True), split=True))
     for (n, p) in sc:
         out.append(Job(M, "make_scorers", dict(n=n, p=p)))
     return out
@@ -448,7 +466,7 @@ def replay(cx):
     rngB = np.random.default_rng(5)
     Af = pd.DataFrame(np.array([[float((3 * i + 5 * j) % 7) - 2.5 for j in range(p)] for i in range(n)]))
     data = {"A": Af, "B": pd.DataFrame(rngB.integers(-4, 5, size=(6, p)).astype(float)),
-            "B2": pd.DataFrame(rngB.integers(-4, 5, size=(7, 3 - p if det != "StatThresholdAnomaliser" else 1)).astype(float))}
+            "B2": pd.DataFrame(rngB.integers(-4, 5, size=(7, 3 - p if (det != "StatThresholdAnomaliser" and not info.get("wrap")) else 1)).astype(float))}
     bad = []
 
     def nobs(o):
@@ -461,8 +479,8 @@ def replay(cx):
             hist = [h for h in HISTORIES if h[0] == hname]
             if hist:
                 _, ops, train = hist[0]
-                d, scorers = build(det, scale=0.3)
-                other, _ = build(det, scorers=scorers, scale=0.3)
+                d, scorers = build(det, scale=0.3, wrap=info.get('wrap', False))
+                other, _ = build(det, scorers=scorers, scale=0.3, wrap=info.get('wrap', False))
                 obs = None
                 for step in ops:
                     parts = step.split()
@@ -481,7 +499,7 @@ def replay(cx):
                             pass
                     else:
                         getattr(tgt, op)(X)
-                r, rs = build(det, scale=0.3)
+                r, rs = build(det, scale=0.3, wrap=info.get('wrap', False))
                 _set_p(rs, data[train].shape[1])
                 r.fit(data[train])
                 _set_p(rs, p)
@@ -491,10 +509,10 @@ def replay(cx):
             elif hname == "update":
                 A1 = pd.DataFrame(rngB.integers(-4, 5, size=(5, p)).astype(float))
                 Anew = pd.DataFrame(Af.values, index=pd.RangeIndex(5, 5 + n))
-                u, us = build(det, scale=0.3)
+                u, us = build(det, scale=0.3, wrap=info.get('wrap', False))
                 u.fit(A1)
                 u.update(Anew)
-                f, fsc = build(det, scale=0.3)
+                f, fsc = build(det, scale=0.3, wrap=info.get('wrap', False))
                 f.fit(pd.concat([A1, Anew]))
                 pu = {k: float(v) for k, v in vars(u).items() if k in ("penalty_", "threshold_", "collective_penalty_", "point_penalty_")}
                 pf = {k: float(v) for k, v in vars(f).items() if k in ("penalty_", "threshold_", "collective_penalty_", "point_penalty_")}
@@ -504,9 +522,9 @@ def replay(cx):
                     bad.append("update: predictions differ from fit on the combined data")
             else:
                 bad.append(f"{ob} ({hname}) -- no concrete replay; see info {str(info)[:200]}")
-                return dict(reproduced=None, key=f"{det}|{hname}|{ob}", what=bad[0])
+                return dict(reproduced=None, key=f"{det}|{hname}|{ob}|{'cost' if info.get('wrap') else 'scorer'}", what=bad[0])
         except Exception as ex:
             bad.append(f"{type(ex).__name__}: {ex}")
         finally:
             c11._val_stat = old
-    return dict(reproduced=bool(bad), key=f"{det}|{hname}|{ob}", what=f"{det} (n={n}, p={p}): " + "; ".join(bad)[:700])
+    return dict(reproduced=bool(bad), key=f"{det}|{hname}|{ob}|{'cost' if info.get('wrap') else 'scorer'}", what=f"{det} (n={n}, p={p}): " + "; ".join(bad)[:700])
